@@ -708,6 +708,19 @@ pub fn all() -> Vec<Box<dyn Check>> {
         required: vec!["allocations_with_ids_in_use", "wraps_observed"],
         exhaustive: false,
     }),
+    Box::new(MixCheck {
+        id: "C09",
+        level: "exploration",
+        rule: "the request kept by the harness is compared structurally with the independent decoding of the bytes that operation put on the wire (CONNECT incl. will/auth/keep-alive/expiry/limits, PUBLISH, SUBSCRIBE, UNSUBSCRIBE, DISCONNECT); refused requests must leave nothing on the wire or in the arena. Workloads: scripted boundary cases (13 will x auth x QoS x retain configurations, keep-alive/expiry extremes, remaining lengths 126..129, 16382..16385, 2097150..2097153, property strings of 0/1/127/128/65535 bytes, all 36 subscription-option combinations, transmit arenas from 0 to just enough, 65536-byte fields, lying/failing payload closures) plus random programs. Non-trivial iff a packet with properties / will / auth / at a remaining-length boundary was compared or a request was refused.",
+        assumptions: COMMON_ASSUME.to_vec(),
+        workloads: vec![("boundaries", 3000, 120_000, Source::Script(crate::scripts::c09_script)), ("general", 2000, 200_000, Source::Gen(general))],
+        monitor: m::c09::check,
+        max_steps: 60,
+        epilogue_polls: 0,
+        min_nt: (200, 2000),
+        required: vec!["connects_compared", "publishes_compared", "subscribes_compared", "disconnects_compared", "refused_requests"],
+        exhaustive: false,
+    }),
     Box::new(SweepCheck {
         id: "C11",
         level: "fault_enumeration",
